@@ -55,8 +55,8 @@ Ltac hg BK :=
   | |- context [Nat.eqb (badr ?g ?k) (badr ?g ?k0)] =>
       let e := fresh "e" in
       destruct (Nat.eq_dec k k0) as [e|e];
-      [ rewrite ?e in *; rewrite Nat.eqb_refl
+      [ try (exfalso; clear - e; lia); rewrite ?e in *; rewrite Nat.eqb_refl
       | let n := fresh "n" in assert (n : badr g k <> badr g k0) by (apply BK; assumption);
         apply Nat.eqb_neq in n; rewrite n; apply Nat.eqb_neq in n ]
-  end; sp; try congruence.
+  end; sp; try match goal with e : ?x <> ?x |- _ => exfalso; apply e; reflexivity end.
 
